@@ -112,6 +112,7 @@ PROPS = {
         "units": [
             R("h23", "c03", "TestC03_Head", (20000, 8), (500000, 16, 3000)),
             R("h23", "c03", "TestC03_PublisherHead", (3000, 2), (100000, 8, 3000)),
+            R("h26", "c03w", "TestC03_Subscriber", (1500, 8, 1500), (30000, 16, 6000)),
         ],
         "fuzz": [{"mod": "h23", "pkg": "c03", "target": "FuzzC03_Head", "secs": 300}],
     },
@@ -120,6 +121,13 @@ PROPS = {
         "units": [
             R("h26", "c01", "TestC01_Random", (2500, 12, 1500), (60000, 16, 6000)),
             E("h26", "c01", "TestC01_Sweep", (4, 1500), (16, 6000)),
+        ],
+    },
+    "C02": {
+        "level": "fault_enumeration",
+        "units": [
+            R("h26", "c02", "TestC02_Random", (3000, 8, 1500), (50000, 16, 6000)),
+            E("h26", "c02", "TestC02_Exhaustive", (8, 1500), (16, 10000)),
         ],
     },
 }
